@@ -460,7 +460,7 @@ class SplitExplorer:
             else:
                 options = ["EOF"] + list(ex.kinds)
                 deep = (ref.mode == "BRACE" and ref.depth >= ex.depth_bound) or \
-                       (ref.mode == "VALUE" and not ref.quote and ref.depth >= ex.depth_bound)
+                       (ref.mode == "VALUE" and ref.depth >= ex.depth_bound)
                 if deep:
                     options.remove("{")
             k = options[it.ctx.choose(len(options), "mark")]
